@@ -51,6 +51,7 @@ type gen struct {
 	hit     map[string]bool // defect shapes actually emitted
 	inBlock int             // nesting depth of if/for blocks
 	loops   int
+	called  map[*Func]bool
 }
 
 const costBudget = 60000
@@ -649,6 +650,7 @@ func (g *gen) callExpr(t *Ty, d int) *Expr {
 		return nil
 	}
 	g.tag("call_in_expr")
+	g.called[f] = true
 	g.cost += 400 * g.iters
 	return &Expr{K: "call", Fn: f, Args: args, T: t}
 }
@@ -656,7 +658,7 @@ func (g *gen) callExpr(t *Ty, d int) *Expr {
 func (g *gen) callArgs(f *Func, d int) []*Expr {
 	var args []*Expr
 	for _, p := range f.Params {
-		a := g.expr(p.T, d-1, true)
+		a := g.expr(p.T, d-1, false) // no constant arguments (the parameter would be const-bound)
 		if a == nil {
 			return nil
 		}
@@ -970,7 +972,11 @@ func (g *gen) stmtAssign() []*Stmt {
 		}
 		return []*Stmt{{K: "opassign", LVs: []*LVal{lv}, Op: op, E: e, RootT: root}}
 	}
-	e := g.expr(lv.T, g.opts.maxDepth, true)
+	// a whole scalar variable is never assigned a bare constant: the compiler
+	// would bind the name to the constant and fold later uses (const folding is
+	// property C12's subject; `var x uint8; x = 1; y := x | 2` is even rejected
+	// with "invalid types: uint8 | int32")
+	e := g.expr(lv.T, g.opts.maxDepth, len(lv.Path) > 0)
 	if e == nil {
 		return nil
 	}
@@ -1098,20 +1104,35 @@ func (g *gen) stmtMultiCall() []*Stmt {
 		if f == g.f {
 			break
 		}
-		if len(f.Results) >= 2 {
-			c = append(c, f)
-		}
+		c = append(c, f)
 	}
 	if len(c) == 0 || g.iters > 2 {
 		return nil
 	}
+	// prefer helpers not called yet
 	f := c[g.r.Intn(len(c))]
+	for _, h := range c {
+		if !g.called[h] {
+			f = h
+		}
+	}
 	args := g.callArgs(f, g.opts.maxDepth)
 	if args == nil {
 		return nil
 	}
+	g.called[f] = true
 	call := &Expr{K: "call", Fn: f, Args: args}
 	g.cost += 400 * g.iters
+	if len(f.Results) == 1 {
+		call.T = f.Results[0]
+		name := g.fresh()
+		g.tag("call_decl")
+		g.declare(name, call.T, true)
+		if g.loops == 0 && g.pct(40) {
+			return []*Stmt{{K: "define", Xs: []string{name}, E: call}}
+		}
+		return []*Stmt{{K: "decl", X: name, T: call.T, E: call}}
+	}
 	// assign to existing variables when possible
 	if g.pct(40) {
 		var lvs []*LVal
@@ -1200,7 +1221,7 @@ func (g *gen) stmts(n int, depth int, results []*Ty, inLoop bool) []*Stmt {
 	var out []*Stmt
 	for i := 0; i < n; i++ {
 		var s []*Stmt
-		switch g.pick(26, 30, 16, 9, 9) {
+		switch g.pick(24, 28, 16, 9, 14) {
 		case 0:
 			s = g.stmtDecl()
 		case 1:
@@ -1267,7 +1288,7 @@ func (g *gen) function(name string, index int, params []Param, results []*Ty, na
 		// make sure every named result is assigned at least sometimes
 		for i, rn := range f.Named {
 			if g.pct(70) {
-				if e := g.expr(results[i], g.opts.maxDepth, true); e != nil {
+				if e := g.expr(results[i], g.opts.maxDepth, false); e != nil {
 					body = append(body, &Stmt{K: "assign", LVs: []*LVal{{X: rn, T: results[i]}}, E: e})
 				}
 			}
@@ -1332,7 +1353,7 @@ func (g *gen) resultTys(max int, allowAgg bool) []*Ty {
 
 func genProgram(r *hxlib.Rng, opts genOpts) *Program {
 	p := &Program{Tags: map[string]bool{}}
-	g := &gen{r: r, p: p, opts: opts, hit: map[string]bool{}, iters: 1}
+	g := &gen{r: r, p: p, opts: opts, hit: map[string]bool{}, iters: 1, called: map[*Func]bool{}}
 	// palette
 	np := 1 + r.Intn(3)
 	for i := 0; i < np; i++ {
